@@ -28,7 +28,7 @@ m = {
     'hooks': {'guard': 'softposit_verif',
               'enable': 'no hook is needed: the harness (/verif/harness, path dependency on /repo) drives the public API; --cfg softposit_verif is reserved and unused',
               'baseline_off_cmd': 'cd /repo && cargo test --workspace --no-fail-fast --offline',
-              'source_commits': [], 'add_only': True},
+              'source_commits': ['051d539734b95cfb0d45e1bd3eb5cc525cfa06f8'], 'add_only': True},
     'engines': [{'name': 'lean4-gen-model', 'path': 'check',
                  'serves_properties': [c['property_id'] for c in checks],
                  'kind_free_text': 'Lean 4 model regenerated from rustc THIR on every run (translator/), theorems in lean/Props, '
